@@ -316,7 +316,8 @@ RefBarrier(st, bi, mask) ==
 -----------------------------------------------------------------------------
 (* Channel.validate_pulse on the integer facts of a pulse *)
 ValidPulse(cfg, P) ==
-  IF cfg.maxAmp # -1 /\ P.am > cfg.maxAmp THEN "VE"
+  IF ~P.fin THEN "VE"
+  ELSE IF cfg.maxAmp # -1 /\ P.am > cfg.maxAmp THEN "VE"
   ELSE IF cfg.maxDet # -1 /\ P.dm > cfg.maxDet THEN "VE"
   ELSE IF P.av > 0 /\ P.av < cfg.minAvg THEN "VE"
   ELSE "ok"
@@ -381,7 +382,7 @@ ModulateSlm(st, dur, amax) ==
                   ELSE Assert(FALSE, <<"total bottom not divisible", cfg.tbottom, n>>))
             ELSE m1
       st1 == [st EXCEPT !.ch[j].wt = FALSE]
-      P == [am |-> 0, av |-> 0, dm |-> Abs(m2), dn |-> m2, dx |-> m2]
+      P == [fin |-> TRUE, am |-> 0, av |-> 0, dm |-> Abs(m2), dn |-> m2, dx |-> m2]
       v == VDur(cfg, dur)
   IN
   IF cfg.rise # 0 THEN Assert(FALSE, "modulated DMM not supported by the model")
